@@ -1,11 +1,19 @@
 package spine
 
-import "github.com/enbility/spine-go/model"
+import (
+	"sync"
+
+	"github.com/enbility/spine-go/model"
+)
 
 type Device struct {
 	address    *model.AddressDeviceType
 	dType      *model.DeviceTypeType
 	featureSet *model.NetworkManagementFeatureSetType
+
+	// guards address, dType and featureSet: a remote device learns them
+	// from the detailed discovery reply while they are being read
+	muxDescription sync.Mutex
 }
 
 // Initialize a new device
@@ -30,14 +38,23 @@ func NewDevice(address *model.AddressDeviceType, dType *model.DeviceTypeType, fe
 }
 
 func (r *Device) Address() *model.AddressDeviceType {
+	r.muxDescription.Lock()
+	defer r.muxDescription.Unlock()
+
 	return r.address
 }
 
 func (r *Device) DeviceType() *model.DeviceTypeType {
+	r.muxDescription.Lock()
+	defer r.muxDescription.Unlock()
+
 	return r.dType
 }
 
 func (r *Device) FeatureSet() *model.NetworkManagementFeatureSetType {
+	r.muxDescription.Lock()
+	defer r.muxDescription.Unlock()
+
 	return r.featureSet
 }
 
